@@ -23,6 +23,14 @@ MANIFEST = {
             'a later join waited for ever): replayed event by event on the real engine, repaired by "fix: re-opening a join '
             'resets its processed flag" (repo_patches/12), the model follows the fixed code (invariant Fresh: no incomplete '
             'execution carries the processed flag) and the former counter-witness is a regression (corpus/C01, Lean example). '
+            'ENGINE WITH COMMANDS (Mistral.Props.C01X): stepX_eq_step - on every command-free definition the engine model with '
+            'engine commands (stepXg, sibling commands in clause order) IS Mistral.Engine.step, world by world, event by event; '
+            'runX_eq_run; the transfer corollaries no_stuck_acyclicX, outcome_schedule_independentX, complete_at_quiescenceX, '
+            'finished_is_inertX. The code sorts sibling commands (pySort, proved a rearrangement): invariance under that order '
+            'is a driver check on every command-free program, not a theorem. verdict_rule is about the completion check, which the '
+            'model with commands shares: Mistral.Props.C01Cmd.verdict_ruleX / verdict_rule_stepX state it on stepX for every '
+            'definition with commands (+ fail_command_verdict, succeed_command_verdict: the command decides the outcome itself); '
+            'crash_only_in_refreshX and no_crash_on_acyclic_partialX: with commands too, no event raises an undeclared error on an acyclic definition. '
             'Ties: the `core` stream (generated data-free programs x oracles x '
             'schedules (+pause/resume/stop): committed rows and multiset of pending deliveries of the REAL engine equal the '
             'model after EVERY event) and the new `live` stream (small acyclic definitions incl. partial joins with successors '
@@ -56,7 +64,7 @@ RULE = ('stream core: data-free single-activation direct workflows (forks, all/p
         'distinct (definition, oracle, schedule seed, commands)')
 TRUSTED = ['harness seams (post-commit thread, RPC client, executor, scheduler dispatcher, clock, ids) replaced by recorders',
            'translate/states.py']
-LEAN_MODULES = ['Mistral.Props.C01']
+LEAN_MODULES = ['Mistral.Props.C01', 'Mistral.Props.C01X', 'Mistral.Props.C01Cmd']
 
 
 def correspond(ctx):
